@@ -98,7 +98,7 @@ def r3(ctx):
     ctx.check(R is not None and R == tm.add(W, tm.neg(bv)), fi, "Z update divides by rho * (W - b)", role="count:z-update", expected=f"{W} - {bv}", found=found or str(denoms)[:100])
     from . import c18, c11
     ctx.sub(c18.r2)
-    ctx.sub(c11.r4)
+    ctx.sub(c11.r4, drop=("corner-guards",))   # rejecting invalid block ids is C11's business, not the optimum's
 
 
 @rule("C02", "R4", "TERM", "per class, Z = soft-threshold((rho*sum S -/+ Q) / (rho R)) with the three-way split at +-Q", floor=3)
@@ -141,7 +141,7 @@ def r4(ctx):
 def r5(ctx):
     from . import c18, c11
     ctx.sub(c18.r2)
-    ctx.sub(c11.r5)
+    ctx.sub(c11.r5, drop=("memo",))            # memoisation is a C14 matter
 
 
 @rule("C02", "R6", "TERM", "X update: Theta = (1/(2 rho)) Q diag(d + sqrt(d^2 + 4 rho)) Q^T with (d, Q) = eigh(rho (Z - U) - S)", floor=4)
